@@ -15,7 +15,7 @@ from .condprops import cond_decl, prior_decl
 PROP = "C14"
 
 BOUNDS = {
-    "quick": "log-factor: every factor kind, R_f in {1,R}, measure = density or unnormalised measure, D=2, R=2; linear conditionals (full, diag, identity, identity-diag, NN control): integrate_log_conditional with an arbitrary Gaussian q over (y,x), integrate_log_conditional_y as callable and with y, (Dx,Dy) in {(1,1),(2,1),(1,2)}; feature models LRBF / LSEM: Dx=1, Dk<=2, Dy=1, q arbitrary",
+    "quick": "log-factor: every factor kind, R_f in {1,R}, measure = density or unnormalised measure, D=2, R=2; linear conditionals (full, diag, identity, identity-diag, NN control): integrate_log_conditional with an arbitrary Gaussian q over (y,x), integrate_log_conditional_y as callable and with y, (Dx,Dy) in {(1,1),(2,1),(1,2)}; feature models LRBF / LSEM: Dx=1, Dk<=2, Dy<=2 (noise covariance concrete at Dk=Dy=2), q arbitrary",
     "thorough": "adds q with R=2, LRBF/LSEM with Dx=2, Dk=2 and Dy=2 (semi-symbolic where needed), (2,2) linear",
 }
 ASSUMPTIONS = ["feature models: p(y|x) = N(y; M (x, k_1(x)..k_n(x)) + b, Sigma) with k_i the library's bumps (RBF: exp(-sum_d ((x_d-s_id)/l_id)^2/2); squared exponential: exp(-(w_i'x - w_i0)^2/2), the library's sign convention); the same form is asserted against the object's own condition_on_x in C16"]
@@ -285,6 +285,8 @@ def cases(tier, seed=0):
     for model in ("lrbf", "lsem"):
         out.append(feature_case(model, 1, 1, 1, 1))
         out.append(feature_case(model, 1, 2, 1, 1))
+        # Dk >= 2 together with Dy >= 2: the (kernel, output) layouts of the cross terms differ only here
+        out.append(feature_case(model, 1, 2, 2, 1, semi=("Sy",), timeout=1200))
         if tier == "thorough":
             out.append(feature_case(model, 1, 2, 2, 1, timeout=2400))
             out.append(feature_case(model, 2, 1, 1, 1, semi=("Sq",), timeout=2400))
